@@ -343,6 +343,45 @@ def load_corpus(pid):
     return out
 
 
+def _as_rat(x):
+    if isinstance(x, str):
+        try:
+            return F(x)
+        except (ValueError, ZeroDivisionError):
+            return None
+    return None
+
+
+def related_request(case, rng):
+    """a copy of the request in which every strictly monotone array of >= 3 rationals keeps its length and its two end
+    points and gets other interior points; None when the request has no such array"""
+    import copy
+    changed = [False]
+
+    def walk(v, key=None):
+        if isinstance(v, dict):
+            return {k: (x if (k == 'const' or str(k).startswith('_')) else walk(x, k)) for k, x in v.items()}
+        if isinstance(v, list):
+            r = [_as_rat(x) for x in v]
+            if len(v) >= 3 and all(x is not None for x in r):
+                up = all(r[i] < r[i + 1] for i in range(len(r) - 1))
+                dn = all(r[i] > r[i + 1] for i in range(len(r) - 1))
+                if up or dn:
+                    lo, hi, n = r[0], r[-1], len(r)
+                    k = rng.choice([2, 3])
+                    new = [lo + (hi - lo) * F(i ** k, (n - 1) ** k) for i in range(n)]
+                    if new == r:
+                        new = [lo + (hi - lo) * F(i, n - 1) for i in range(n)]
+                    if new != r:
+                        changed[0] = True
+                        return [q(x) for x in new]
+                return v
+            return [walk(x) for x in v]
+        return v
+    out = walk(copy.deepcopy(case))
+    return out if changed[0] else None
+
+
 def run_cases(rep, cases, impl_fn, model_fn=None, oracle_fn=None, rtol=1e-9, atol_fn=None,
               tags_fn=None, nontrivial_fn=None, compare_fn=None):
     """the common loop: implementation (fork pool) and model (Lean driver) on every case,
@@ -351,10 +390,36 @@ def run_cases(rep, cases, impl_fn, model_fn=None, oracle_fn=None, rtol=1e-9, ato
     model_fn(case) -> the JSON line for the driver (None: case has no model counterpart)
     oracle_fn(rep, case, impl_outcome) -> records oracle failures on rep
     """
+    # "decoy" twins: a tenth of the cases is evaluated once more, in one process, right after a RELATED request (same
+    # shape: every strictly monotone numeric array keeps its length and end points and gets other interior points).
+    # The model is a pure function of the measured request, so an implementation that keeps state between calls
+    # (a memo keyed by size and end points, a module-level table) shows up as a mismatch / oracle failure whose
+    # replay carries the decoy.  VERIF_NODECOY=1 switches this off.
+    cases = list(cases)
+    if len(cases) > 8 and not os.environ.get('VERIF_NODECOY'):
+        rng = rep.rng('decoy')
+        extra = []
+        for c in cases:
+            if isinstance(c, dict) and '_decoy' not in c and not ({'fname', 'path', 'file', '_nodecoy'} & set(c)) and rng.random() < 0.1:
+                d = related_request(c, rng)
+                if d is not None:
+                    extra.append(dict(c, _decoy=d))
+        cases += extra
+        inner = impl_fn
+
+        def impl_fn(c, inner=inner):        # noqa: F811
+            if isinstance(c, dict) and '_decoy' in c:
+                try:
+                    inner(c['_decoy'])
+                except Exception:   # noqa
+                    pass
+                return inner({k: v for k, v in c.items() if k != '_decoy'})
+            return inner(c)
     impl = pmap(impl_fn, cases)
     mcases, midx = [], []
     for i, c in enumerate(cases):
-        mc = model_fn(c) if model_fn else c
+        cm = {k: v for k, v in c.items() if k != '_decoy'} if isinstance(c, dict) else c
+        mc = model_fn(cm) if model_fn else cm
         if mc is not None:
             mcases.append(mc)
             midx.append(i)
